@@ -352,17 +352,31 @@ def scenarios():
     return _base_scn_mn() + [message_new(k) for k in ('bytes', 'str', 'sensitive', 'cleartext')]
 
 
-def cleartext_str(nsigs):
+def cleartext_str(nsigs, read_first=False):
     """PGPMessage.__str__ for a cleartext message (RFC 4880 section 7): header line, one Hash header naming the digests of the signatures
     (none without signatures), an empty line, the dash-escaped text, then the armored signature block. The dash-escaping itself is a regular
-    expression (bounded component of C11); here: where its result goes."""
-    label = 'C11/PGPMessage.__str__[cleartext, %d signature%s]' % (nsigs, '' if nsigs == 1 else 's')
+    expression (bounded component of C11); here: where its result goes. `read_first`: the message object was filled by parse() from a
+    cleartext block whose Hash header named ANOTHER digest than its present signatures use (it was countersigned since): what is written
+    follows the signatures it has now (no hidden state)."""
+    label = 'C11/PGPMessage.__str__[cleartext, %d signature%s%s]' % (nsigs, '' if nsigs == 1 else 's', ', read from a block first' if read_first else '')
     MSGC = 'pgpy.pgp.PGPMessage'
 
     def gen(repo):
         r = scn.Run(repo, MSGC, '__str__', label)
         ex, st = r.ex, r.st
         me = E.VObj(MSGC, 'msg')
+        if read_first:
+            d = E.VDict([(E.VStr(s='magic'), E.VStr(s='SIGNATURE')), (E.VStr(s='headers'), E.VNone()), (E.VStr(s='body'), ex.new_buf(st, z3.Empty(B))),
+                         (E.VStr(s='cleartext'), E.VStr(z=z3.Const('CLEARTEXT_AS_ARMORED', B))), (E.VStr(s='crc'), E.VNone()),
+                         (E.VStr(s='hashes'), ex.new_list(st, [E.VStr(z=z3.Const('HASH_NAMED_IN_THE_HEADER_THAT_WAS_READ', B))]))])
+            r.hook('pgpy.types.Armorable', 'ascii_unarmor', scn.method_hook(lambda ex, st, o, a: [(st, d)]))
+            r.hook(MSGC, '__or__', scn.method_hook(lambda ex, st, o, a: [(st, o)]))
+            lkp = repo.lookup(MSGC, 'parse')
+            outs = ex.call_func(E.VFunc(lkp[2], None, cls=lkp[1], self_val=me, mod=repo.classes[lkp[1]].module), [E.VBytes(z3.Const('INPUT', B))], {}, st, {'mod': repo.classes[lkp[1]].module})
+            outs = [(s0, v0) for s0, v0 in outs if not isinstance(v0, E.Raise)]
+            if len(outs) != 1:
+                raise E.ToolLimit('parse of an empty cleartext block did not return on exactly one path')
+            r.st = st = outs[0][0]
         r.hook(MSGC, 'type', scn.const(E.VStr(s='cleartext')))
         TEXT, ARMOR, HNAME = z3.Const('TEXT', B), z3.Const('ARMORED_SIGNATURES', B), z3.Const('HASH_NAME', B)
         r.set('msg', '_message', E.VBytes(z3.Const('TEXT_OCTETS', B)))
@@ -393,7 +407,7 @@ _base_scn_ct = scenarios
 
 
 def scenarios():
-    return _base_scn_ct() + [cleartext_str(0), cleartext_str(1)]
+    return _base_scn_ct() + [cleartext_str(0), cleartext_str(1), cleartext_str(1, read_first=True)]
 
 
 def message_parse(kind):
@@ -419,7 +433,8 @@ def message_parse(kind):
             magic = E.VStr(z=MAGIC)
             st.pc += [MAGIC != lit('MESSAGE'), MAGIC != lit('SIGNATURE')]
         d = E.VDict([(E.VStr(s='magic'), magic), (E.VStr(s='headers'), E.VNone()), (E.VStr(s='body'), buf),
-                     (E.VStr(s='cleartext'), E.VStr(z=CLEAR) if kind == 'cleartext' else E.VNone()), (E.VStr(s='crc'), E.VNone())])
+                     (E.VStr(s='cleartext'), E.VStr(z=CLEAR) if kind == 'cleartext' else E.VNone()), (E.VStr(s='crc'), E.VNone()),
+                     (E.VStr(s='hashes'), ex.new_list(st, [E.VStr(z=z3.Const('HASH_NAMED_IN_THE_HEADER', B))]) if kind == 'cleartext' else E.VNone())])
         r.hook('pgpy.types.Armorable', 'ascii_unarmor', scn.method_hook(lambda ex, st, o, a: [(st, d)]))
         UNESC = z3.Function('RE_SUBN_STR[^-  ->  | re.MULTILINE]', B, B)
         SIGP = 'pgpy.packet.packets.SignatureV4'
